@@ -102,6 +102,14 @@ func c03Run(N, M int, orders [][]int) c03Result {
 			res.log = in.Log()
 			return res
 		}
+		// the surplus tokens' completion traces are emitted by their own goroutines: wait for the ones this
+		// activation must produce before cutting the log here (under load they arrived one segment late)
+		surplus := N - M
+		if surplus < 0 {
+			surplus = 0
+		}
+		wantComp := (a + 1) * surplus
+		in.WaitUntil(tmoStep, func(l []Ev) bool { return countEv(l, "complete", "G") >= wantComp })
 		in.Mark("answer", "L", "")
 		t.Do(bpmn.DoWithResults(map[string]any{"again": a+1 < K}))
 	}
